@@ -154,7 +154,7 @@ def run_tensor_case(ctx, c, outcome, rng):
             ctx.check(np.abs(got - ref).max() <= 1e-5 * (1e-300 + np.abs(ref).max()) + 1e-12, sig, what + ': the denoted tensor changed', case=c)
 
 
-def data_sets(fam, rng):
+def data_sets(fam, rng, rt=None):
     out = []
     for n in ([3, 2, 3], [4, 3]):
         if fam == 'two':
@@ -184,12 +184,20 @@ def data_sets(fam, rng):
         n = [2, 2]
         I = np.array([[0, 0], [1, 1], [0, 0], [1, 1]])
         out.append((n, I, np.array([1., 3., 1., 3.])))
+        if rt == 'anova':
+            # index values with gaps (a value of a later mode is never sampled: the routine works on the observed values, the
+            # result has one slice per observed value) and index pairs that never occur together
+            for I, y in ((np.array([[0, 0, 0], [0, 0, 0], [0, 3, 1], [0, 3, 1], [1, 2, 0], [1, 2, 0], [1, 3, 1], [2, 2, 1], [2, 2, 1], [2, 3, 0]]),
+                          np.array([1., 1., 2., 2., 1., 1., 2., 3., 3., 1.])),
+                         (np.array([[0, 5, 2], [3, 0, 2], [3, 5, 7], [0, 2, 7], [0, 5, 2], [1, 2, 9]]), np.array([1., -2., 0., 4., 1., 0.5])),
+                         (np.array([[4, 0], [0, 6], [4, 6], [2, 3], [2, 3]]), np.array([2., 2., 2., 2., 2.]))):
+                out.append(([len(np.unique(I[:, k])) for k in range(I.shape[1])], I, y))
     return out
 
 
 def run_data_case(ctx, c, rng, known):
     fam, rt, fl = c['fam'], c['routine'], c['flags']
-    for n, I, y in data_sets(fam, rng):
+    for n, I, y in data_sets(fam, rng, rt):
         d = len(n)
         what = '%s%s on "%s" data (n=%s, %d samples)' % (rt, tuple(fl), fam, n, len(y))
         sig = 'degenerate:%s' % rt
